@@ -1,0 +1,37 @@
+// SPDX-FileCopyrightText: 2026 The Pion community <https://pion.ly>
+// SPDX-License-Identifier: MIT
+
+//go:build verif
+
+package webrtc
+
+// Contracts for C09 (mids are stable across renegotiations). Comments only; syntax in
+// /verif/DESIGN.md section 4.
+
+// A transceiver's mid is stored only by SetMid, and SetMid refuses to change a mid that is
+// set: by induction over any history a mid, once set, never changes.
+//@ field RTPTransceiver.mid props C09 writers (*RTPTransceiver).SetMid
+
+//@ func (*RTPTransceiver).Mid
+//@ inline
+
+//@ func (*RTPTransceiver).SetMid
+//@ props C09
+//@ requires t != nil
+//@ ensures old(t.Mid()) != "" ==> err != nil && t.Mid() == old(t.Mid())
+//@ ensures old(t.Mid()) == "" ==> err == nil && t.Mid() == mid
+//@ modifies t.mid
+
+// The mid counter is written only by CreateOffer and only grows.
+//@ field PeerConnection.greaterMid props C09 writers (*PeerConnection).CreateOffer
+
+// Mid allocation in CreateOffer: every mid handed to a transceiver is the decimal form of
+// the counter's current value, and only a transceiver without a mid is given one (so SetMid
+// cannot fail there). That the counter only grows (new mids exceed every numeric mid seen
+// before) holds barring wrap-around of the 64-bit counter; it is not claimed here because
+// no inductive bound excludes the wrap (a remote mid of 9223372036854775807 reaches it).
+//@ func (*PeerConnection).CreateOffer #mids
+//@ props C09
+//@ nosafety
+//@ requires pcValid(pc)
+//@ atcall (*RTPTransceiver).SetMid assert callarg1 == strconv.Itoa(pc.greaterMid) && callarg0.Mid() == ""
